@@ -581,3 +581,105 @@ Proof.
       destruct (ihead_tok it); try exact A. congruence.
   - intros k R (HF & HL & HV & HS). apply atomic_no_prefix; assumption.
 Qed.
+
+(* ---------- the main induction ---------- *)
+Definition fgood (f : formula) : Prop := wf_formula f = true /\ keyword_ident f = false /\ rimp_neg f = false.
+
+Lemma ends_term_atomic a : ends_term (FAtomic a) = aends_term a.
+Proof. destruct a as [| |p [|t ts]|t gs]; reflexivity. Qed.
+
+Lemma ffollow_rparen e k X : ffollow e k (TRParen :: X).
+Proof.
+  split; [|reflexivity]. split; [reflexivity|]. split; [exact I|]. split; [exact I|].
+  intros _ fuel Hf. destruct fuel; [lia|reflexivity].
+Qed.
+
+Lemma fsize_pos f : 1 <= fsize f.
+Proof. destruct f; cbn; lia. Qed.
+Lemma fitems_length f : List.length (fitems f) <= fsize f.
+Proof.
+  induction f as [a|g IH|c l IHl r IHr|q vs g IH]; cbn [fitems fsize List.length];
+    try pose proof (fsize_pos g); try pose proof (fsize_pos l); try pose proof (fsize_pos r).
+  - lia.
+  - unfold fwrap. destruct (un_paren _ _); cbn [List.length]; lia.
+  - rewrite app_length. cbn [List.length]. unfold fwrap. destruct (lhs_paren _ _), (rhs_paren _ _); cbn [List.length]; lia.
+  - unfold fwrap. destruct (q_paren _ _); cbn [List.length]; lia.
+Qed.
+
+Section MainStep.
+  Variable f : nat.
+  (* induction hypothesis of the main theorem: the recursive parser reads groups back *)
+  Hypothesis IHf : forall g R, fsize g + 3 < f -> fgood g -> ffollow (ends_term g) 0 R ->
+    peg_formula f (print_formula false g ++ R) = Ok g R.
+
+  Lemma group_ok_sub g : fsize g + 3 < f -> fgood g -> group_ok (peg_formula f) g.
+  Proof. intros Hs Hg R. apply IHf; [exact Hs|exact Hg|apply ffollow_rparen]. Qed.
+
+  Notation SEQ := (fseq (peg_formula f) f).
+  Notation OPND := (fopnd (peg_formula f) f).
+
+  Lemma fitems_seq F : forall k, fsize F + k + 2 < f -> fgood F ->
+    SEQ (fitems F) (ends_term F) k /\ (match F with FBin _ _ _ => True | _ => OPND (fitems F) (ends_term F) k end).
+  Proof.
+    induction F as [a|g IH|c l IHl r IHr|q vs g IH]; intros k Hk (W & K & RN).
+    - assert (O : OPND [FIAtom a] (ends_term (FAtomic a)) k).
+      { rewrite ends_term_atomic. apply fo_atom; [apply atom_ok_wf; assumption|cbn [fsize] in Hk; lia]. }
+      split; [apply fs_one|]; exact O.
+    - cbn [wf_formula keyword_ident rimp_neg fsize] in *.
+      assert (O : OPND (fitems (FNot g)) (ends_term (FNot g)) k).
+      { cbn [fitems ends_term]. apply fo_not. unfold fwrap. destruct (un_paren (FNot g) g) eqn:U.
+        - apply fo_group. apply group_ok_sub; [lia|repeat split; assumption].
+        - pose proof (un_paren_false (FNot g) g I U) as NB.
+          destruct (IH k ltac:(lia) (conj W (conj K RN))) as [_ O]. destruct g; try tauto; exact O. }
+      split; [apply fs_one|]; exact O.
+    - split; [|exact I]. cbn [wf_formula keyword_ident rimp_neg fsize] in *.
+      apply andb_true_iff in W. destruct W as [Wl Wr].
+      apply orb_false_elim in K. destruct K as [Kl Kr].
+      apply orb_false_elim in RN. destruct RN as [RN RC]. apply orb_false_elim in RN. destruct RN as [RNl RNr].
+      set (k1 := fsize r + 2).
+      cbn [fitems ends_term].
+      (* left part, with the slack the connective needs *)
+      assert (SL : SEQ (fwrap (lhs_paren (FBin c l r) l) (fitems l) l) (if lhs_paren (FBin c l r) l then false else ends_term l) k1).
+      { unfold fwrap. destruct (lhs_paren (FBin c l r) l).
+        - apply fs_one, fo_group. apply group_ok_sub; [lia|repeat split; assumption].
+        - apply IHl; [subst k1; lia|repeat split; assumption]. }
+      assert (SR : SEQ (fwrap (rhs_paren (FBin c l r) r) (fitems r) r) (if rhs_paren (FBin c l r) r then false else ends_term r) k).
+      { unfold fwrap. destruct (rhs_paren (FBin c l r) r).
+        - apply fs_one, fo_group. apply group_ok_sub; [lia|repeat split; assumption].
+        - apply IHr; [lia|repeat split; assumption]. }
+      eapply fseq_app; [exact SL|exact SR|].
+      intros E1 R. destruct c; try (apply other_conn_stops; discriminate).
+      (* reverse implication after a term: this is where the class C15-RIMP is excluded *)
+      destruct (lhs_paren (FBin CRimp l r) l) eqn:LP; [discriminate|]. rewrite E1 in RC. cbn [negb andb] in RC.
+      unfold fwrap. cbn [conn_tok]. destruct (rhs_paren (FBin CRimp l r) r) eqn:RP.
+      + cbn [fflat flat_map fflat1 app]. rewrite app_nil_r, <- app_assoc. cbn [app]. apply rimp_stop_group. exact Wr.
+      + cbn [negb andb] in RC. rewrite <- print_formula_items. apply rimp_stop_plain; assumption.
+    - cbn [wf_formula keyword_ident rimp_neg fsize] in *.
+      apply andb_true_iff in W. destruct W as [W Wg]. apply andb_true_iff in W. destruct W as [Wne Wvs].
+      assert (O : OPND (fitems (FQ q vs g)) (ends_term (FQ q vs g)) k).
+      { cbn [fitems ends_term]. unfold fwrap. destruct (q_paren (FQ q vs g) g) eqn:U.
+        - apply fo_quant; [apply fo_group; apply group_ok_sub; [lia|repeat split; assumption]| |exact I].
+          destruct vs; [discriminate|discriminate].
+        - unfold q_paren in U. apply orb_false_elim in U. destruct U as [UB UP].
+          pose proof (un_paren_false (FQ q vs g) g I UP) as NB.
+          destruct (IH k ltac:(lia) (conj Wg (conj K RN))) as [_ O].
+          apply fo_quant; [destruct g; try tauto; exact O|destruct vs; [discriminate|discriminate]|].
+          rewrite <- print_formula_items. apply bwv_head; assumption. }
+      split; [apply fs_one|]; exact O.
+  Qed.
+End MainStep.
+
+(* C15 for formulas, token level: printing a well-formed formula outside the two known classes and
+   parsing the tokens (followed by anything that may follow a formula) gives the formula back *)
+Theorem formula_rt : forall n F R, fsize F + 3 < n -> fgood F -> ffollow (ends_term F) 0 R ->
+  peg_formula n (print_formula false F ++ R) = Ok F R.
+Proof.
+  induction n as [|f IH]; intros F R Hn HG HF; [lia|].
+  assert (IH' : forall g R0, fsize g + 3 < f -> fgood g -> ffollow (ends_term g) 0 R0 ->
+                peg_formula f (print_formula false g ++ R0) = Ok g R0).
+  { intros g R0 Hg Gg FF. apply IH; [lia|exact Gg|exact FF]. }
+  destruct (fitems_seq f IH' F 0 ltac:(lia) HG) as [SQ _].
+  pose proof (fitems_length F) as LEN.
+  destruct (seq_ok (peg_formula f) f (fitems F) (ends_term F) 0 SQ R f HF ltac:(lia)) as (a & b & R1 & E1 & E2 & E3).
+  cbn [peg_formula]. rewrite print_formula_items, E1, E2, E3, pratt_formula_items. reflexivity.
+Qed.
